@@ -8,6 +8,7 @@ CONSTANTS
   Idle = 0
   WaitData = 0
   SockT = 0
+  V6 = FALSE
   KF = {}
   Cmds <- c_Cmds
   Datas <- c_Datas
@@ -18,7 +19,7 @@ CONSTANTS
   Cuts = FALSE
   MaxNow = 0
   MaxLevel = 17
-  Pipe = TRUE
+  Pipe = FALSE
   MaxDin = 3
 INIT MCInit
 NEXT MCNext
